@@ -242,6 +242,9 @@ func (loc *Location) RuleEnabled(ctx *Context, id string) (bool, error) {
 		Log(WARN, ctx, "Location.RuleEnabled", "location", loc.Name, "uerr", "disabled", "ruleId", id)
 		return false, fmt.Errorf("Location is disabled.")
 	}
+	if err := loc.CheckRead(ctx); err != nil {
+		return false, err
+	}
 
 	Inc(&loc.stats.TotalCalls, 1)
 	var err error
@@ -795,6 +798,9 @@ func (loc *Location) GetParents(ctx *Context) ([]string, error) {
 		Log(WARN, ctx, "Location.GetParents", "location", loc.Name)
 		return nil, fmt.Errorf("Location is disabled.")
 	}
+	if err := loc.CheckRead(ctx); err != nil {
+		return nil, err
+	}
 
 	Metric(ctx, "GetParents", "location", loc.Name)
 
@@ -834,6 +840,9 @@ func (loc *Location) SetParents(ctx *Context, parents []string) (string, error) 
 	if !loc.Enabled(ctx) {
 		Log(WARN, ctx, "Location.SetParents", "location", loc.Name)
 		return "", fmt.Errorf("Location is disabled.")
+	}
+	if err := loc.CheckWrite(ctx); err != nil {
+		return "", err
 	}
 
 	Metric(ctx, "SetParents", "location", loc.Name)
